@@ -12,8 +12,9 @@ def parseUse (j : Json) : Option Use :=
   | some "encryption" => some .encryption
   | _ => none
 
+/-- "certs": null = KeyInfo without X509Data; a null entry = X509Data without certificate -/
 def parseKd (j : Json) : KeyDescr String :=
-  { use := parseUse j, certs := (arr? j "certs").map asStrList }
+  { use := parseUse j, x509 := ((arr? j "certs").getD []).map asStr? }
 
 def parseKind : String → Option RoleKind
   | "spsso" => some .spsso
@@ -43,9 +44,18 @@ def lookupTag (md : Metadata String String) (issuer : Option String) : String :=
     | none => "unknown-issuer"
     | some ent =>
       match certsAny Gen.KeysDefaults.roleOrder .signing ent with
-      | none => "keyerror"
-      | some [] => "no-signing-cert"
-      | some _ => "md-certs"
+      | [] => "no-signing-cert"
+      | _ => "md-certs"
+
+/-- the issuer's entity has a signing-applicable key descriptor that carries no certificate
+    (input class of the repaired defect C03/keyless-keydescriptor-fallback) -/
+def keyless (md : Metadata String String) (issuer : Option String) : Bool :=
+  match issuer with
+  | none => false
+  | some i =>
+    match md i with
+    | none => false
+    | some ent => ent.roles.any (fun r => r.keys.any (fun kd => applicable .signing kd && (kdCerts kd).isEmpty))
 
 def envPath (onlyMd : Bool) (md : Metadata String String) (m : Msg String String) : String :=
   let r := checkSignature true Gen.KeysDefaults.roleOrder onlyMd md m
@@ -113,7 +123,7 @@ def handle (line : Json) : Json :=
     ("spec_model", specAccept cfg md m o.accepted),
     ("spec_impl", specImpl),
     ("why", why),
-    ("keyerror", !wellKeyed md m.issuer),
+    ("keyless", keyless md m.issuer),
     ("bound", jstrs bound)]
 
 def main : IO Unit := serve handle
